@@ -166,3 +166,22 @@ Example rv_plan_example :
   (* a record with three diagonal items is outside the guard *)
   /\ g_aligned [] (inter_texts old_names new_names) [3]%nat (diff pdist_eqb [pd1; pd2; pd3] [pd12; pd3]) 0 = false.
 Proof. repeat split; vm_compute; reflexivity. Qed.
+
+(* the create theorems are not vacuous: the demo float instance prints without letters, so the upper-case
+   law holds; '$OMEGA  0.1 FIX ; IIV_X' and a fixed BLOCK(2) with one named covariance *)
+Example create_examples :
+  (exists root, create_single_root Z demo false SPlain 1%Z true (T [73; 73; 86; 95; 88]%nat) 3 = Ok root
+     /\ str root = T [32; 32; 48; 46; 49; 32; 70; 73; 88; 32; 59; 32; 73; 73; 86; 95; 88; 10]%nat
+     /\ osem Z demo root = Ok [mkO 1%Z true])
+  /\ (let elems := [(1%Z, pd_name 1 1); (0%Z, T [67; 79; 86]%nat); (2%Z, pd_name 2 2)] in
+      Forall (fun e => d_tok (upper (d_str (fst e))) = Some (fst e)) elems
+      /\ str (create_block_root Z demo false false 2 elems true 1)
+         = T [32; 66; 76; 79; 67; 75; 40; 50; 41; 32; 70; 73; 88; 10; 48; 46; 49; 10; 48; 46; 48; 9; 59; 32; 67; 79; 86; 10;
+              48; 46; 50; 10]%nat
+      /\ block_inits Z demo (create_block_root Z demo false false 2 elems true 1) = Ok [1%Z; 0%Z; 2%Z])
+  (* a later IOV occasion of a FIXED parameter: 'BLOCK(1) SAME FIX' is refused by the grammar *)
+  /\ create_single_root Z demo false SIovSame 1%Z true [] 2 = Err EParse.
+Proof.
+  split; [eexists; repeat split; vm_compute; reflexivity|]. split; [|reflexivity].
+  cbv zeta. split; [repeat constructor|]. split; vm_compute; reflexivity.
+Qed.
